@@ -11,11 +11,13 @@ R: Gen_ZoneFile   TLC walks the printer (-simulate, seeded) over a universe of r
                   contexts; each case = text + the records the specification says it denotes.
                   drive_zone replay runs the real Parser (and the file-store zone loading) on the
                   text and compares the projected records.
-T: drive_zone record: mutated / garbage / re-laid-out / very long texts through the real Parser
-                  (panics via catch_unwind, hangs via watchdog); Trace_ZoneFile reads every text
-                  with the specification's Read and checks the recorded outcome against it
-                  (exact records where the text is a master file, error where it is malformed
-                  beyond doubt, ok-or-error elsewhere, never a panic or hang).
+T: drive_zone record: mutated / garbage / re-laid-out / very long texts, a systematic sweep of
+                  single-item substitutions in the RDATA of every type, and $INCLUDE situations,
+                  through the real Parser (panics via catch_unwind, hangs via watchdog);
+                  Trace_ZoneFile reads every text with the specification's Read and checks the
+                  recorded outcome against it (exact records where the text is a master file,
+                  error where it is malformed beyond doubt, ok-or-error elsewhere, never a panic
+                  or hang).
 """
 import json
 import os
@@ -45,15 +47,45 @@ FEATURES = [
 # tags that indicate a feature only when the specification could not read the text as a master file
 LEX_ONLY = {"lex-quote-in-paren", "lex-escape-in-word", "lex-dollar-word", "lex-at-word"}
 
+# where several kept-apart features occur in one text, the error message of the implementation decides
+# between those that are present (it never introduces a feature the text does not have)
+HINTS = [
+    ("unrecognized token in stream: List(", ["parenthesis-before-type"]),
+    ("unrecognized token in stream: At", ["at-sign-as-rdata-name", "unquoted-string-starting-with-at"]),
+    ("unrecognized dollar content", ["unquoted-string-starting-with-dollar"]),
+]
+
+
+def feature_of(tags, exp_st, observed=None):
+    tags = set(tags or [])
+    present = []
+    for name, ind, _sw in FEATURES:
+        if any(t in tags and (t not in LEX_ONLY or exp_st != "ok") for t in ind):
+            present.append(name)
+    if not present:
+        return "none"
+    msg = (observed or {}).get("msg") or ""
+    if len(present) > 1 and msg:
+        for needle, feats in HINTS:
+            if needle in msg:
+                for f in feats:
+                    if f in present:
+                        return f
+    return present[0]
+
 
 def _report(res, kind, tags, exp_st, path, observed, detail):
     """One disagreement between specification and implementation.  kind: records-differ |
     valid-file-rejected | malformed-text-accepted | panic | hang.  Panics and hangs are classified by
     where they happen, everything else by the kept-apart layout feature the text uses (if any)."""
-    feat = feature_of(tags, exp_st)
+    feat = feature_of(tags, exp_st, observed)
     fields = {"feature": feat, "kind": kind, "path": path}
     if kind in ("panic", "hang"):
-        fields["where"] = observed.get("msg", "")
+        # file + the constant head of the panic message (the tail of an expect() message is the Debug form
+        # of the inner error and varies with the input)
+        msg = observed.get("msg", "")
+        f, _, rest = msg.partition(": ")
+        fields["where"] = msg if rest.startswith("assertion failed") else f + ": " + rest.split(": ")[0]
         cls = kind
     elif feat != "none":
         cls = "layout:" + feat
@@ -62,20 +94,11 @@ def _report(res, kind, tags, exp_st, path, observed, detail):
     res.mismatch(cls, fields, detail)
 
 
-def feature_of(tags, exp_st):
-    tags = set(tags or [])
-    for name, ind, _sw in FEATURES:
-        for t in ind:
-            if t in tags and (t not in LEX_ONLY or exp_st != "ok"):
-                return name
-    return "none"
-
-
 GEN_CFG = [
     "SPECIFICATION PSpec", "CONSTANTS", "  Origin0 <- Apex", "  Records <- {records}", "  Origins <- G_Origins",
     "  TtlDirs <- G_TtlDirs", "  Seps <- G_Seps", "  PSeps <- G_PSeps", "  Comments <- G_Comments", "  Eols <- G_Eols",
-    "  MaxRR = {maxrr}", "  MinRR = {minrr}", "  MaxDir = 4", "  MaxBlank = 4", "  MaxEntries = {maxent}", "  FirstRR <- {first}", "  Opt <- P_Opt",
-    "INVARIANT Emit", "CHECK_DEADLOCK FALSE",
+    "  MaxRR = {maxrr}", "  MinRR = {minrr}", "  MaxDir = 4", "  MaxBlank = 4", "  MaxEntries = {maxent}",
+    "  FirstRR <- {first}", "  Opt <- P_Opt", "INVARIANT Emit", "CHECK_DEADLOCK FALSE",
 ]
 LEX_CFG = [
     "SPECIFICATION GSpec", "CONSTANTS", "  Alphabet <- {alpha}", "  MaxLen = {maxlen}", "  MinLen = {minlen}",
@@ -183,6 +206,7 @@ def run(res, tier, seed):
         "else RFC 1035 5.1 leaves open are read as `unspec` by the specification: only totality is judged there",
         "the projection of loaded records (drive_zone.rs) uses std's address formatting and, for fixed-layout types, "
         "hickory's wire encoding of the RDATA",
+        "the harness is built with debug assertions on (harness/Cargo.toml), so debug_assert! failures count as panics",
         "TLC 1.8.0, CommunityModules (FoldLeft, Json) are trusted",
     ]
     wd = vlib.workdir("c20")
@@ -222,9 +246,11 @@ def run(res, tier, seed):
         swd = os.path.join(wd, gname)
         os.makedirs(os.path.join(swd, "tmp"), exist_ok=True)
         tla, cfg = vlib.wrapper(swd, gname, "Gen_ZoneFile", {"P_Opt": opt},
-                                [l.format(records=records, first=first, maxrr=maxrr, minrr=maxrr // 2, maxent=maxrr + 8) for l in GEN_CFG])
+                                [l.format(records=records, first=first, maxrr=maxrr, minrr=maxrr // 2, maxent=maxrr + 8)
+                                 for l in GEN_CFG])
         n = per if "core" in name or "zone" in name else max(per // 2, 60)
-        cases, st = vlib.gen(tla, cfg, swd, timeout=900 if thorough else 300, simulate=(n, 400), seed=seed * 1000 + i + 1, heap="2g")
+        cases, _st = vlib.gen(tla, cfg, swd, timeout=1200 if thorough else 400, simulate=(n, 400), seed=seed * 1000 + i + 1,
+                              heap="2g")
         return name, cases
 
     all_cases = []
@@ -265,14 +291,15 @@ def run(res, tier, seed):
     tpath = os.path.join(wd, "record.trace.ndjson")
     opath = os.path.join(wd, "record.out.ndjson")
     vlib.run_driver("drive_zone", ["record", "--trace", tpath, "--n", str(n_rec), "--seed", str(seed), "--corpus", corpus,
-                                   "--max-judged", "9000", "--inc-dir", os.path.join(wd, "include")], stdout_path=opath)
+                                   "--max-judged", "9000", "--inc-dir", os.path.join(wd, "include"), "--rdata-sweep"],
+                    stdout_path=opath)
     kinds = {}
     outs = {}
     for v in vlib.read_ndjson(opath):
         kinds[v["kind"]] = kinds.get(v["kind"], 0) + 1
         outs[v["st"]] = outs.get(v["st"], 0) + 1
     mism, tst = _trace_parallel(wd, tpath, shards=12 if thorough else 6)
-    n_rec = sum(kinds.values())          # + the hand-written $INCLUDE situations
+    n_rec = sum(kinds.values())          # + the RDATA sweep and the hand-written $INCLUDE situations
     res.traces += n_rec
     res.evaluations += n_rec
     res.extra["recorded_texts_validated"] = n_rec
@@ -297,7 +324,6 @@ def run(res, tier, seed):
                 {"source": "recorded:" + str(m.get("kind")), "case": m["case"],
                  "text": text if len(text) < 2000 else text[:300] + f"...[{len(text)} chars]",
                  "expected": m["expected"], "observed": m["observed"], "tags": m.get("tags")})
-    # totality of the long texts that the monitor only sees as `total` events is judged by the monitor too
     res.extra["cases_by_expectation"] = counts["by_expectation"]
     res.extra["layout_features_exercised"] = dict(sorted(counts["features"].items()))
     res.extra["record_types_exercised"] = dict(sorted(counts["types"].items()))
@@ -313,7 +339,7 @@ def replay(res, path):
     d = json.load(open(path))
     det = d.get("detail", {})
     print(json.dumps({k: det.get(k) for k in ("source", "text", "expected", "tags")}, indent=1)[:3000])
-    if "text" in det and "expected" in det and "..." not in det["text"][-30:]:
+    if "text" in det and "expected" in det and "..." not in det["text"][-30:] and det["expected"].get("st") in ("ok", "err", "unspec"):
         vlib.build_harness(BINS)
         wd = vlib.workdir("c20_replay")
         c = {"text": det["text"], "origin": det.get("origin", ["example", "com"]), "exp": det["expected"],
